@@ -18,6 +18,10 @@ Modelled functions (branch for branch where the property depends on it):
   `sortPointPairs`       sort_point_pairs: start selection, the double loop as a scan over the
                          not-yet-found lines in input order (fuel = number of positions), both asserts
   `sortMultiChain`       sort_multiple_point_pairs, one chain (no assert: unfilled positions stay 0)
+  `sortPointPlaneXY`     sort_point_plane restricted to planes z = const (identity rotation): exact
+                         comparison of arctan2 values by region and cross product
+  `sortPointsOnLine`     sort_points_on_line: asserts, tangent of compute_tangent, argsort of the
+                         coordinate along the tangent (the rotation is replaced by the dot product)
 
 The model follows the PROPERTY where the code deviates from it (known_findings.d/C31.json,
 fixes/C31-*.diff): `pointsAreCollinear` tests EVERY point against the line through the first point
@@ -339,6 +343,87 @@ def sortMultiChain (lines : List Line) : List Line :=
   | [] => []
   | l0 :: rest => l0 :: walkZ rest.length l0.2 (enumFrom' 1 rest)
 
+/-! ### sort_points_on_line -/
+
+def add3 (a b : P3) : P3 := (a.1 + b.1, a.2.1 + b.2.1, a.2.2 + b.2.2)
+def scale3 (k : Rat) (a : P3) : P3 := (k * a.1, k * a.2.1, k * a.2.2)
+
+/-- stable insertion sort of (index, key) pairs by key (`np.argsort` on distinct keys) -/
+def insertByKey (x : Nat × Rat) : List (Nat × Rat) → List (Nat × Rat)
+  | [] => [x]
+  | y :: l => if x.2 ≤ y.2 then x :: y :: l else y :: insertByKey x l
+
+def sortByKey : List (Nat × Rat) → List (Nat × Rat)
+  | [] => []
+  | x :: l => insertByKey x (sortByKey l)
+
+def maxL : List Rat → Rat
+  | [] => 0
+  | [x] => x
+  | x :: l => maxR x (maxL l)
+
+def minL : List Rat → Rat
+  | [] => 0
+  | [x] => x
+  | x :: l => let m := minL l; if x < m then x else m
+
+/-- the coordinate that survives `project_line_matrix`, up to the positive factor `|T|`:
+    `σ (p - mean)·T`, `T` = centred vector of the point farthest from the mean (`compute_tangent`),
+    `σ = -1` exactly if `T` points along `-e_z` (then the rotation degenerates to the identity and
+    the active coordinate is `z = -(p - mean)·T/|T|`) -/
+def lineKeys (pts : List P3) : Option (List Rat × P3) :=
+  let c := mean3 pts
+  let v := pts.map (fun p => sub3 p c)
+  match argmaxFirst nsq3 v with
+  | none => none
+  | some T =>
+    let σ : Rat := if T.1 = 0 ∧ T.2.1 = 0 ∧ T.2.2 < 0 then -1 else 1
+    some (v.map (fun w => σ * dot3 w T), T)
+
+/-- sort_points_on_line: one point → `[0]`; `assert points_are_collinear`; the tangent must not
+    vanish (`compute_tangent` asserts); exactly one active dimension (`dx > tol`), i.e. the extent
+    along the line exceeds `tol`; then `argsort` of the active coordinate. -/
+def sortPointsOnLine (pts : List P3) (tol : Rat) : Except Err (List Nat) :=
+  match pts with
+  | [] => .error .index
+  | [_] => .ok [0]
+  | _ =>
+    if !pointsAreCollinear pts tol then .error .assertion else
+    match lineKeys pts with
+    | none => .error .assertion
+    | some (keys, T) =>
+      if T = (0, 0, 0) then .error .assertion else
+      let ext := maxL keys - minL keys
+      if ext * ext ≤ tol * tol * nsq3 T then .error .assertion else
+      .ok ((sortByKey (enumFrom' 0 keys)).map (·.1))
+
+/-! ### sort_point_plane, points in a plane z = const -/
+
+/-- where `θ = arctan2(x, y) ∈ (-π, π]` lies: 0: `(-π, 0)` (x < 0); 1: `θ = 0` (x = 0, y ≥ 0);
+    2: `(0, π)` (x > 0); 3: `θ = π` (x = 0, y < 0) -/
+def angRegion (u : P2) : Nat :=
+  if u.1 < 0 then 0 else if 0 < u.1 then 2 else if u.2 < 0 then 3 else 1
+
+/-- `arctan2(u.x, u.y) < arctan2(w.x, w.y)`, decided exactly: by region, and inside an open half
+    plane by the sign of the cross product (θ grows clockwise) -/
+def angLt (u w : P2) : Bool :=
+  decide (angRegion u < angRegion w)
+    || (angRegion u == angRegion w && (angRegion u == 0 || angRegion u == 2) && decide (cross2 u w < 0))
+
+def insertByAngle (x : Nat × P2) : List (Nat × P2) → List (Nat × P2)
+  | [] => [x]
+  | y :: l => if angLt y.2 x.2 then y :: insertByAngle x l else x :: y :: l
+
+def sortByAngle : List (Nat × P2) → List (Nat × P2)
+  | [] => []
+  | x :: l => insertByAngle x (sortByAngle l)
+
+/-- sort_point_plane for points and centre in a plane `z = const` (normal `± e_z`, so that
+    `project_plane_matrix` is the identity and the active coordinates are x, y):
+    `argsort(arctan2(x - c.x, y - c.y))` -/
+def sortPointPlaneXY (pts : List P2) (c : P2) : List Nat :=
+  (sortByAngle (enumFrom' 0 (pts.map (fun p => sub2 p c)))).map (·.1)
+
 /-! ### specification vocabulary (used in the statements of Props.lean) -/
 
 def dot2 (a b : P2) : Rat := a.1 * b.1 + a.2 * b.2
@@ -370,5 +455,28 @@ def pathLines : List Int → List Line
 
 /-- a line as an unordered pair -/
 def normL (l : Line) : Line := if l.1 ≤ l.2 then l else (l.2, l.1)
+
+/-! #### crossing numbers of the upward vertical ray (edges translated by `-p`) -/
+
+/-- the edge crosses the vertical line through the origin from left to right / right to left -/
+def isLR (e : P2 × P2) : Bool := decide (e.1.1 < 0) && decide (0 < e.2.1)
+def isRL (e : P2 × P2) : Bool := decide (e.2.1 < 0) && decide (0 < e.1.1)
+
+/-- … and does so ABOVE the origin.  For a left-to-right edge `a → b` the crossing height is
+    `a.y + (0 - a.x)(b.y - a.y)/(b.x - a.x) = -(a × b)/(b.x - a.x)`, positive iff `a × b < 0`
+    (`intercept_pos_iff` in Lemmas.lean); for a right-to-left edge iff `a × b > 0`. -/
+def upLR1 (e : P2 × P2) : Int := if isLR e && decide (cross2 e.1 e.2 < 0) then 1 else 0
+def upRL1 (e : P2 × P2) : Int := if isRL e && decide (0 < cross2 e.1 e.2) then 1 else 0
+def straddle1 (e : P2 × P2) : Int := if isLR e || isRL e then 1 else 0
+
+/-- number of left-to-right / right-to-left crossings of the open upward ray; their sum is the
+    crossing number of the ray, their difference its signed crossing number -/
+def upLR (es : List (P2 × P2)) : Int := isum (es.map upLR1)
+def upRL (es : List (P2 × P2)) : Int := isum (es.map upRL1)
+/-- number of edges met by the vertical line through the origin -/
+def straddleCount (es : List (P2 × P2)) : Int := isum (es.map straddle1)
+
+/-- the edges of `poly` seen from `p` -/
+def edgesFrom (poly : List P2) (p : P2) : List (P2 × P2) := cycPairs (poly.map (fun v => sub2 v p))
 
 end PorepyVerif.C31
